@@ -934,7 +934,7 @@ func c04Monitor(c ACase, o aObs) string {
 
 // ---- C05 mutation stream ---------------------------------------------------------------------------
 
-var c05Dict = []string{"msg=", "type=", "audit(", "):", " ", "=", "\"", "'", "\\\"", "\\'", "avc:", " denied ", "{ ", " } for ", "old ", "new ", " (hostname=", ")'", "saddr=", "argc=", "a0=", "a1=",
+var c05Dict = []string{"node=", "node=h ", "msg=", "type=", "audit(", "):", " ", "=", "\"", "'", "\\\"", "\\'", "avc:", " denied ", "{ ", " } for ", "old ", "new ", " (hostname=", ")'", "saddr=", "argc=", "a0=", "a1=",
 	"arch=", "syscall=", "success=", "res=", "exit=", "key=", "subj=", "obj=", "proctitle=", "cmd=", "data=", "cwd=", "exe=", "name=", "acct=", "sig=", "auid=", "ses=", "old-auid=", "4294967295", "-1", "?", "?,", "(null)",
 	"0200", "0A00", "0100", "1000", "c000003e", "40000003", "FFFFFFFF", "00", "\x00", "\x01", ":", "::", " ", " ", "\xff", "-9223372036854775808", "9223372036854775807", "99999999999999999999"}
 
@@ -1554,6 +1554,30 @@ func auparseFamily(ctx *Ctx) error {
 				run(mkACase("line", 0, "type=SYSCALL msg=audit(1.000:1): a="+v), true, true, "size-ladder")
 				run(mkACase("line", 0, "type="+strings.Repeat("X", n)+" msg=audit(1.000:1): a=b"), true, true, "size-ladder")
 				run(mkACase("line", 0, "type=SYSCALL msg="+strings.Repeat(" ", n)+"audit(1.000:1): a=b"), true, true, "size-ladder")
+			}
+		}
+		// decimal thresholds (numbered keys a0..aN change width at powers of ten): EXECVE records with every argument
+		// present, monitored only (a record of 100001 arguments is a megabyte)
+		{
+			ladder := []int{9, 10, 11, 99, 100, 101, 999, 1000, 1001, 9999, 10000, 10001, 99999, 100000, 100001, 131073}
+			if ctx.Thorough() {
+				ladder = append(ladder, 999999, 1000000, 1000001)
+			}
+			for _, n := range ladder {
+				var args strings.Builder
+				fmt.Fprintf(&args, "audit(1.000:1): argc=%d", n)
+				for i := 0; i < n; i++ {
+					fmt.Fprintf(&args, " a%d=%d", i, i%10)
+				}
+				run(mkACase("data", 1309, args.String()), false, true, "decimal-ladder")
+			}
+		}
+		// lines as other writers of audit logs prefix them (auditd with name_format set writes node=HOST first; syslog
+		// and journald put their own header in front), well-formed and with the tokens in the wrong order
+		for _, pre := range []string{"node=web01 ", "node= ", "node=", "node=a node=b ", "Sep 26 10:00:00 host audispd: node=web01 ", "<86>Sep 26 10:00:00 host audit: ", "audit: ", "kernel: audit: ", "[ 12.345678] audit: ", "msg=x ", "type=X "} {
+			for _, rest := range []string{"type=SYSCALL msg=audit(1.000:1): a=b", "msg=audit(1.000:1): op=set fan_type=1 res=1", "msg=audit(1.000:1): a=b type=SYSCALL", "type= msg=audit(1.000:1): a=b",
+				"type=SYSCALL", "msg=audit(1.000:1):", "type=SYSCALL msg=", "type=msg=audit(1.000:1): a=b", "msg=type=", "type=", "msg=", ""} {
+				run(mkACase("line", 0, pre+rest), true, true, "prefixed-line")
 			}
 		}
 		// fixed lines under every record type
